@@ -14,15 +14,22 @@ theorem freshB_distinct : ∀ (rest done : Layer), freshB done rest = true →
   | nil => intro done _; simp
   | cons e rest ih =>
     intro done hf
-    simp only [freshB, Bool.and_eq_true, Bool.not_eq_true', bne_iff_ne, ne_eq] at hf
-    obtain ⟨⟨hnew, hne⟩, hf'⟩ := hf
+    simp only [freshB, Bool.and_eq_true, Bool.or_eq_true, Bool.not_eq_true', bne_iff_ne, ne_eq] at hf
+    obtain ⟨⟨hfresh, hne⟩, hf'⟩ := hf
     obtain ⟨h1, h2, h3⟩ := ih (done ++ [e]) hf'
-    unfold mentionedBy at hnew
-    rw [List.any_eq_false] at hnew
+    have hnone : ∀ a ∈ done, a.p ≠ e.p := by
+      intro a ha heq
+      rcases hfresh with hnew | hupg
+      · unfold mentionedBy at hnew
+        rw [List.any_eq_false] at hnew
+        have := hnew a ha; simp [heq] at this
+      · unfold upgradeOK at hupg
+        simp only [Bool.and_eq_true, Bool.not_eq_true', List.any_eq_false] at hupg
+        have := hupg.2 a ha; simp [heq] at this
     refine ⟨?_, ?_, ?_⟩
     · intro a ha b hb
       rcases List.mem_cons.mp hb with rfl | hb
-      · intro heq; have := hnew a ha; simp [heq] at this
+      · exact hnone a ha
       · exact h1 a (by simp [ha]) b hb
     · rw [List.pairwise_cons]
       exact ⟨fun b hb => h1 e (by simp) b hb, h2⟩
@@ -305,7 +312,8 @@ theorem Hfrom_cons {later : List Layer} {l : Layer} {older : List Layer} (h : Hf
 /-- The induction over the layers of one view, newest first.  `v` = the view after the layers already read
 (`later`), `k` = number of layers still to read. -/
 theorem view_gen (layers : List Layer) : ∀ (k : Nat) (later : List Layer) (v : Tree),
-    Prov v later → Hfrom later ((newestFirst layers k).map (·.2)) = true →
+    Prov v later → (∀ q n, v.get q = some n → n.virt = true → k ≤ n.layer) →
+    Hfrom later ((newestFirst layers k).map (·.2)) = true →
     ((revFrom layers k v).get [] = v.get []) ∧
     ∀ q, q ≠ [] → obsOf ((revFrom layers k v).get q) =
       match v.get q with
@@ -314,7 +322,7 @@ theorem view_gen (layers : List Layer) : ∀ (k : Nat) (later : List Layer) (v :
   intro k
   induction k with
   | zero =>
-    intro later v _ _
+    intro later v _ _ _
     refine ⟨rfl, ?_⟩
     intro q _
     simp only [revFrom, newestFirst, visible]
@@ -322,7 +330,7 @@ theorem view_gen (layers : List Layer) : ∀ (k : Nat) (later : List Layer) (v :
     | none => simp [obsOf]
     | some n => simp [obsOf]
   | succ k ih =>
-    intro later v hprov hH
+    intro later v hprov hvirt hH
     simp only [newestFirst, List.map_cons] at hH
     obtain ⟨hok, hnoopq, hrec, himp, hrest⟩ := Hfrom_cons hH
     have hok' := hok
@@ -331,6 +339,7 @@ theorem view_gen (layers : List Layer) : ∀ (k : Nat) (later : List Layer) (v :
     obtain ⟨hfresh, hnubB⟩ := hok'
     have hnub := (noUnderBlocker_iff _).mp hnubB
     obtain ⟨hv1root, hv1⟩ := revLayer_apply k v (layers.getD k []) hok
+      (fun q n hn hv => by have := hvirt q n hn hv; omega)
     -- abbreviations
     generalize hl : layers.getD k [] = l at *
     generalize hv1def : revLayer k v l = v1 at *
@@ -361,7 +370,24 @@ theorem view_gen (layers : List Layer) : ∀ (k : Nat) (later : List Layer) (v :
             simp [this]
           · simp [hi]
           · rw [hm] at hn; cases hn
-    obtain ⟨ihroot, ihq⟩ := ih (l :: later) v1 hprov1 hrest
+    have hvirt1 : ∀ q n, v1.get q = some n → n.virt = true → k ≤ n.layer := by
+      intro q n hn hv
+      by_cases hq : q = []
+      · subst hq; rw [hv1root] at hn; have := hvirt [] n hn hv; omega
+      · rw [hv1 q hq] at hn
+        cases hvq : v.get q with
+        | some m => rw [hvq] at hn; simp at hn; subst hn; have := hvirt q m hvq hv; omega
+        | none =>
+          rw [hvq] at hn
+          simp only [Option.none_or] at hn
+          by_cases hw : inWhDir v q = true
+          · simp [hw] at hn
+          · simp only [hw] at hn
+            rcases mention_cases k hfresh q with ⟨e, _, _, hm⟩ | ⟨_, _, hm⟩ | ⟨_, _, hm⟩
+            · rw [hm] at hn; simp at hn; subst hn; simp [Entry.node] at hv
+            · rw [hm] at hn; simp at hn; subst hn; simp [implDir]
+            · rw [hm] at hn; cases hn
+    obtain ⟨ihroot, ihq⟩ := ih (l :: later) v1 hprov1 hvirt1 hrest
     refine ⟨by simp only [revFrom]; rw [hl, hv1def, ihroot, hv1root], ?_⟩
     intro q hq
     simp only [revFrom]
